@@ -215,6 +215,8 @@ class Task(Generic[T]):
         if self.auto_shortflags:
             # Must know what short names are available
             for char in name:
+                if not char.isalnum():
+                    continue
                 if not (char == name or char in taken_names):
                     names.append(char)
                     break
@@ -255,6 +257,7 @@ class Task(Generic[T]):
         # Prime the list of all already-taken names (mostly for help in
         # choosing auto shortflags)
         taken_names = set(sig.parameters.keys())
+        taken_names.update(translate_underscores(x) for x in sig.parameters)
         # Build arg list (arg_opts will take care of setting up shortnames,
         # etc)
         args = []
